@@ -148,13 +148,22 @@ theorem encList_length_ge {α} (enc : α → Bytes) (l : List α) (h : ∀ a ∈
     have := ih (fun b hb => h b (by simp [hb]))
     simp [encList_cons]; omega
 
+theorem hasAtLeast_iff (n : Nat) (bs : Bytes) : hasAtLeast n bs = true ↔ n ≤ bs.length := by
+  induction n generalizing bs with
+  | zero => simp [hasAtLeast]
+  | succ n ih =>
+    cases bs with
+    | nil => simp [hasAtLeast]
+    | cons b bs => simp [hasAtLeast, ih]
+
 theorem encVec_RT {α} (enc : α → Bytes) (dec : Bytes → Option (α × Bytes)) (l : List α)
     (hlen : l.length < U64) (hne : ∀ a ∈ l, 1 ≤ (enc a).length) (h : ∀ a ∈ l, RT enc dec a) :
     RT (encVec enc) (decVec dec) l := by
   intro r
   have h1 := encVarint_RT l.length hlen (encList enc l ++ r)
   have h2 := encList_length_ge enc l hne
-  have h3 : ¬ (l.length > (encList enc l).length + r.length) := by omega
+  have h3 : hasAtLeast l.length (encList enc l ++ r) = true := by
+    rw [hasAtLeast_iff, List.length_append]; omega
   simp [encVec, decVec, List.append_assoc, h1, h3, decN_encList enc dec l h r]
 
 theorem encVec_ne_nil {α} (enc : α → Bytes) (l : List α) : 1 ≤ (encVec enc l).length := by
